@@ -131,9 +131,11 @@ int main (int argc, char **argv) {
   {
     sexp_gc_var2(path, env);
     sexp_gc_preserve2(ctx, path, env);
+    if (!getenv("C02_NO_BOOT_GC")) verif_gc(ctx, NULL, 0);     /* the heap of a fresh context (core types, opcodes, primitive env) */
     sexp_load_standard_env(ctx, NULL, SEXP_SEVEN);
     sexp_load_standard_ports(ctx, NULL, stdin, stdout, stderr, 1);
     env = sexp_context_env(ctx);
+    if (!getenv("C02_NO_BOOT_GC")) verif_gc(ctx, NULL, 0);     /* ... and after the standard environment is loaded */
     sexp_define_foreign(ctx, env, "verif-gc", 0, verif_gc);
     path = sexp_c_string(ctx, argv[1], -1);
     res = sexp_load(ctx, path, NULL);
